@@ -16,6 +16,7 @@ import DropletsVerif.Driver.C16
 import DropletsVerif.Driver.C17
 import DropletsVerif.Driver.C04
 import DropletsVerif.Driver.C09
+import DropletsVerif.Driver.C05
 
 open DV.Drv
 
@@ -37,6 +38,7 @@ def dispatch (line : String) : String :=
   | "c17" :: args => handleC17 args
   | "c04" :: args => handleC04 args
   | "c09" :: args => handleC09 args
+  | "c05" :: args => handleC05 args
   | "c15" :: args => handleC15 args
   | _ => "bad-op"
 
